@@ -242,7 +242,7 @@ static void do_send(uint64_t me, struct gm_state *s, const struct gm_act *ac, do
 		return;
 	/* destination */
 	uint64_t dest;
-	unsigned dm = ac->a < 4 ? ac->a : g->dest_mode;
+	unsigned dm = g->dest_mode == 4 ? 4 : ac->a < 4 ? ac->a : g->dest_mode;
 	switch(dm) {
 		case 1:
 			dest = ((r >> 8) & 1) ? (me + 1) % g->n_lps : (me + g->n_lps - 1) % g->n_lps;
@@ -252,6 +252,9 @@ static void do_send(uint64_t me, struct gm_state *s, const struct gm_act *ac, do
 			break;
 		case 3:
 			dest = me;
+			break;
+		case 4: /* drip: LP 0 receives an event only now and then, the rest stays local */
+			dest = s->handled % (3 + g->seed % 13) == 0 ? 0 : ((r >> 8) & 1 ? me : (me + 1) % g->n_lps);
 			break;
 		default:
 			dest = (r >> 8) % g->n_lps;
